@@ -85,7 +85,7 @@ def _flavour_context():
     return info
 
 
-def execute(ctx, flavour, caller, ncalls):
+def execute(ctx, flavour, caller, ncalls, fixed_kw=None):
     """caller: 'outside' or the flavour of the payload that calls execute (different from `flavour`)"""
     w = rt.World(accept_delay=0.02)
     runner = w.runner
@@ -95,7 +95,7 @@ def execute(ctx, flavour, caller, ncalls):
     for i in range(ncalls):
         what, detail, obj = _outcome(ctx, "_%d" % i)
         arity = ctx.choice("arity_%d" % i, 3)
-        kws = KW[ctx.choice("kw_%d" % i, len(KW))]
+        kws = KW[ctx.choice("kw_%d" % i, len(KW), fixed=fixed_kw)]
         args = tuple(ctx.num("c%d_a%d" % (i, j), "int") for j in range(arity))
         kwargs = {k: ctx.num("c%d_%s" % (i, k), "int") for k in kws}
         plan.append((what, detail, obj, args, kwargs))
@@ -221,11 +221,14 @@ PREDICATES = {"asyncio_timeouterror_identity": _asyncio_timeout_identity}
 def tasks(tier, seed):
     out = []
     wit = 3 if tier == "quick" else 1
+    n = 0
     for flavour in FLAV:
         for caller in ("outside",) + FLAV:
             if caller == flavour and flavour != "threading":
                 continue  # same-flavour execute from inside a coroutine is excluded by the statement
-            out.append(Task(MOD, "execute", dict(flavour=flavour, caller=caller, ncalls=1), model="R", weight=10,
+            n += 1
+            out.append(Task(MOD, "execute", dict(flavour=flavour, caller=caller, ncalls=1,
+                                                 fixed_kw=(n % 3 if tier == "quick" else None)), model="R", weight=10,
                             shards=8, witness_every=wit))
             if tier == "thorough" and caller in ("outside", "threading"):
                 out.append(Task(MOD, "execute", dict(flavour=flavour, caller=caller, ncalls=2), model="R", weight=100,
